@@ -53,11 +53,11 @@ def tlc_jobs(ctx, quick):
             for g in LAWGROUPS + (['core'] if sp == 'pspace1' else []):
                 exp('d1-%s-%s' % (sp, g), sp, 1, g, xs='quick')          # every leaf x every rule: 16 points x 3 steps
     # sanity laws of the reference
-    # (quick: every leaf on three spaces; thorough: every leaf on every space, every leaf x rule on two spaces)
+    # (quick: every leaf on three spaces; thorough: every leaf on every space, every leaf x rule on one weighted space)
     lawspaces = ['rn2', 'discr2', 'power1'] if quick else fu.SPACES_2D
     for sp in lawspaces:
         for g in LAWGROUPS:
-            deep = (not quick) and sp in ('rnw2', 'power1')
+            deep = (not quick) and sp == 'rnw2'
             jobs.append(('laws-%s-%s' % (sp, g), M, 'MC_FuncMachine_lawsProx.cfg',
                          fu.fm_env(sp, 1 if deep else 0, g, 'prox', xset='quick'), 1))
     # depth 2 on a core of leaves ("derived rules preserve optimality")
